@@ -42,6 +42,8 @@ var c09Values = []struct{ name, typ string }{
 	{"i", "int"}, {"s", "string"}, {"b", "bool"}, {"c", "complex128"}, {"sl", "[]int"}, {"m", "map[string]int"}, {"p", "*S"}, {"st", "S"},
 	{"ch", "chan int"}, {"e", "error"}, {"f1", "func(int) int"}, {"f2", "func(int, string) bool"}, {"fv", "func(int, ...int) int"},
 	{"fe", "func() (int, error)"}, {"pred", "func(int) bool"}, {"u", "unsafe.Pointer"}, {"ifc", "interface{}"}, {"nil", "untyped nil"}, {"1", "untyped int"},
+	// named versions of the shapes the functional plugins take apart
+	{"nfe", "Thunk"}, {"nf1", "Fn"}, {"nsl", "Ints"}, {"nm", "Dict"},
 }
 
 var c09Reduced = []string{"i", "sl", "f1", "fv", "e", "ch", "st"}
@@ -55,7 +57,16 @@ type S struct {
 	B string
 }
 
+type Thunk func() (int, error)
+type Fn func(int) int
+type Ints []int
+type Dict map[string]int
+
 var (
+	nfe  Thunk
+	nf1  Fn
+	nsl  Ints
+	nm   Dict
 	i    int
 	s    string
 	b    bool
@@ -82,7 +93,7 @@ var (
 func argClass(ts []string) string {
 	prio := []struct{ kind, match string }{
 		{"untyped-nil", "untyped nil"}, {"unsafe.Pointer", "unsafe.Pointer"}, {"variadic-func", "...int"}, {"chan", "chan int"}, {"interface", "interface{}"},
-		{"error", "error"}, {"func", "func("}, {"complex", "complex128"}, {"bool", "bool"}, {"struct", "S"}, {"map", "map["}, {"slice", "[]int"},
+		{"error", "error"}, {"func", "func("}, {"named-func", "Thunk"}, {"named-func", "Fn"}, {"named-slice", "Ints"}, {"named-map", "Dict"}, {"complex", "complex128"}, {"bool", "bool"}, {"struct", "S"}, {"map", "map["}, {"slice", "[]int"},
 		{"string", "string"}, {"untyped-const", "untyped int"}, {"int", "int"},
 	}
 	for _, p := range prio {
